@@ -308,7 +308,10 @@ def gen_billing_rows(rng, sc):
         lens = [calendar.monthrange(y + (m - 1 + j) // 12, (m - 1 + j) % 12 + 1)[1] for j in range(k)]
         sc["start"], sc["span"] = [y, m, 1], sum(lens)
         ts = L.day_starts(sc, extra=2)
-        if all(ts[i + 1] - ts[i] == L.DAY for i in range(sc["span"] - 3, sc["span"] + 1)):
+        # no clock change on the last days of any month: from_series trims trailing months without values, and the
+        # closing stamp (end + 24 h) of the class loses the usage of a final 23 / 25-hour day (C08's subject)
+        ends = [sum(lens[:j + 1]) for j in range(k)]
+        if all(ts[i + 1] - ts[i] == L.DAY for e in ends for i in range(e - 3, e + 1)):
             break
     sc["meter_source"] = rng.choice(["daily", "daily", "hourly"])
     if sc["meter_source"] == "hourly":
